@@ -27,7 +27,7 @@ fn props() -> Vec<PropDef> {
             PropDef { id: $id, level: $lvl, rule: props::$m::RULE, assumptions: props::$m::ASSUMPTIONS, run: props::$m::run }
         };
     }
-    vec![p!("C01", c01, "exploration"), p!("C02", c02, "exploration"), p!("C03", c03, "exploration"), p!("C04", c04, "exploration"), p!("C05", c05, "exploration"), p!("C06", c06, "exploration"), p!("C07", c07, "exploration"), p!("C08", c08, "exploration"), p!("C09", c09, "exploration"), p!("C10", c10, "exploration"), p!("C11", c11, "exploration"), p!("C12", c12, "exploration"), p!("C13", c13, "exploration"), p!("C14", c14, "exploration"), p!("C15", c15, "exploration"), p!("C16", c16, "fault_enumeration"), p!("C17", c17, "exploration"), p!("C18", c18, "exploration"), p!("C20", c20, "exploration")]
+    vec![p!("C01", c01, "exploration"), p!("C02", c02, "exploration"), p!("C03", c03, "exploration"), p!("C04", c04, "exploration"), p!("C05", c05, "exploration"), p!("C06", c06, "exploration"), p!("C07", c07, "exploration"), p!("C08", c08, "exploration"), p!("C09", c09, "exploration"), p!("C10", c10, "exploration"), p!("C11", c11, "exploration"), p!("C12", c12, "exploration"), p!("C13", c13, "exploration"), p!("C14", c14, "exploration"), p!("C15", c15, "exploration"), p!("C16", c16, "fault_enumeration"), p!("C17", c17, "exploration"), p!("C18", c18, "exploration"), p!("C19", c19, "fault_enumeration"), p!("C20", c20, "exploration")]
 }
 
 fn usage() -> ! {
@@ -71,6 +71,12 @@ fn main() {
             "--worker" => {
                 i += 1;
                 worker = Some(PathBuf::from(args.get(i).unwrap_or_else(|| usage())));
+            },
+            "--crash-child" => {
+                i += 1;
+                engine::install_quiet_panic_hook();
+                props::c19::child(std::path::Path::new(args.get(i).unwrap_or_else(|| usage())));
+                return;
             },
             "--out" => {
                 i += 1;
